@@ -6,19 +6,22 @@ dependency graph is `Flat.depPairs` = the `all_preds` map that `find_subgraph_un
 `SubgraphMerge::new`:  non-delayed pipe edges + reference edges (+ borrower-before-consumer) +
 access-order edges + loop-ingress (block-contiguity) edges (DESIGN §7 F9: part of the reading).
 
-`topo_sort` is a parameter `ts` with its specification `TopoSpec` as an explicit hypothesis
-(`topo_sort` itself is the subject of C17, project HvGraphAlg; the driver runs the re-transcription
-`HvPart.topoSort`, and the correspondence check compares it with the real one on every case).
+`topo_sort` is a parameter `ts` with its specification `TopoSpec`; the model as run (`partition`) uses
+`tsC17`, the C17 transcription of `topo_sort` (project HvGraphAlg, copied into `HvPart/C17/` together with its
+correctness proof on every run), for which `TopoSpec` is proved here (`tsC17_meets_TopoSpec`), so the
+`partition_*` theorems at the end carry no hypothesis about the sort.  The correspondence check compares the
+model's answer (Ok/Err, the exact cycle) with the real `partition_graph` on every case.
 
 What the Rust code does besides returning `Err`:
 * `find_access_group_ordering` *panics* (`assert_ne!`) when one operator sits in two consecutive access
   groups of the same handoff — a self-dependency; modelled as `Outcome.panic "conflicted-refs"` and
   counted as a rejection (`conflictedRefs_is_self_cycle`).
-* `SubgraphMerge::new` *panics* (`assert_ne!(a, b)`) on a delayed self-edge `d = defer_tick(); d -> d`
-  although the dependency graph is acyclic: clause "every acyclic graph is accepted" is REFUTED on that
-  witness (`acyclic_accepted_refuted`), recorded as finding F19.
+* `SubgraphMerge::new` used to *panic* (`assert_ne!(a, b)`) on a delayed self-edge `d = defer_tick(); d -> d`
+  although the dependency graph is acyclic (finding F19, fixed in /repo: self-pairs are no longer enemy pairs);
+  the witness is now accepted (`delayed_self_edge_accepted`) and the assert cannot fire (`new_accepts_enemy_pairs`).
 -/
 import HvPart.Model.Partition
+import HvPart.C17.TopoThms
 
 namespace HvPart
 
@@ -41,10 +44,12 @@ def Dep (g : Flat) (a b : Nat) : Prop := (b, a) ∈ g.depPairs
 
 instance (g : Flat) (a b : Nat) : Decidable (Dep g a b) := by unfold Dep; infer_instance
 
-/-- specification of `topo_sort(node_ids, preds_fn)` (proved for the Rust algorithm under C17) -/
+/-- specification of `topo_sort(node_ids, preds_fn)`: an answer `Ok(order)` lists every node after all its
+    predecessors, an answer `Err(cycle)` is a closed walk of the predecessor graph.  Proved below for the
+    sort the model runs (`tsC17_meets_TopoSpec`). -/
 structure TopoSpec (ts : TopoSortFn) : Prop where
   ok_sound : ∀ nodes preds order, ts nodes preds = .ok order →
-    (∀ n ∈ nodes, n ∈ order) ∧ (∀ n ∈ order, ∀ p ∈ preds n, order.idxOf p < order.idxOf n)
+    (∀ n ∈ nodes, n ∈ order) ∧ (∀ n ∈ nodes, ∀ p ∈ preds n, order.idxOf p < order.idxOf n)
   err_sound : ∀ nodes preds c, ts nodes preds = .error c → IsCycle (fun a b => a ∈ preds b) c
 
 /-- well-formedness of the dump: edge heads and referencing nodes are nodes of the graph -/
@@ -170,6 +175,78 @@ theorem aux_partition_err (ts : TopoSortFn) (g : Flat) (c : List Nat) :
       · intro h; exact (aux_finish_not_err g _ c h).elim
       · intro h; exact (key.mpr h).elim
 
+/-! ### `TopoSpec` holds for the sort the model runs (C17's transcription and proof, `HvPart/C17/*`) -/
+
+theorem aux_le_foldl_max (l : List Nat) : ∀ (a x : Nat), (x ≤ a ∨ x ∈ l) → x ≤ l.foldl max a := by
+  induction l with
+  | nil => intro a x h; rcases h with h | h; exact h; cases h
+  | cons y t ih =>
+    intro a x h
+    simp only [List.foldl_cons]
+    apply ih
+    rcases h with h | h
+    · exact Or.inl (by omega)
+    · rcases List.mem_cons.mp h with rfl | h
+      · exact Or.inl (by omega)
+      · exact Or.inr h
+
+theorem aux_mem_tsPreds {nodes : List Nat} {preds : Nat → List Nat} {p k : Nat} :
+    p ∈ tsPreds nodes preds k ↔ k ∈ nodes ∧ p ∈ preds k := by
+  unfold tsPreds
+  by_cases h : k ∈ nodes <;> simp [h]
+
+theorem aux_ts_bounded (nodes : List Nat) (preds : Nat → List Nat) :
+    HvGraphAlg.Bounded (tsBound nodes preds) nodes (tsPreds nodes preds) := by
+  refine ⟨fun i hi => ?_, fun k _ p hp => ?_⟩
+  · have := aux_le_foldl_max (nodes ++ nodes.flatMap preds) 0 i (Or.inr (List.mem_append_left _ hi))
+    unfold tsBound; omega
+  · obtain ⟨hk, hp⟩ := aux_mem_tsPreds.mp hp
+    have := aux_le_foldl_max (nodes ++ nodes.flatMap preds) 0 p
+      (Or.inr (List.mem_append_right _ (List.mem_flatMap.mpr ⟨k, hk, hp⟩)))
+    unfold tsBound; omega
+
+/-- the recursion fuel of the C17 model is never exhausted, so the `.fuel` arm of `tsC17` is dead -/
+theorem tsC17_never_out_of_fuel (nodes : List Nat) (preds : Nat → List Nat) :
+    HvGraphAlg.topoSort (tsBound nodes preds) nodes (tsPreds nodes preds) ≠ .fuel :=
+  HvGraphAlg.topoSort_total (aux_ts_bounded nodes preds)
+
+theorem aux_isPath_path {P : Nat → List Nat} {E : Nat → Nat → Prop} (h : ∀ a b, a ∈ P b → E a b) :
+    ∀ l, HvGraphAlg.IsPath P l → Path E l
+  | [], _ => trivial
+  | [_], _ => trivial
+  | a :: b :: t, hp => ⟨h a b hp.1, aux_isPath_path h (b :: t) hp.2⟩
+
+/-- **`TopoSpec` is met by the topological sort the model runs** (`tsC17`: the C17 transcription of
+    `topo_sort`, whose correctness proof is re-checked in this project). -/
+theorem tsC17_meets_TopoSpec : TopoSpec tsC17 := by
+  refine ⟨fun nodes preds order h => ?_, fun nodes preds c h => ?_⟩
+  · unfold tsC17 at h
+    split at h
+    · rename_i o ho
+      injection h with h
+      subst h
+      obtain ⟨_, hreach, hresp⟩ := HvGraphAlg.topoSort_ok_respects_edges (aux_ts_bounded nodes preds) ho
+      refine ⟨fun n hn => (hreach n).mpr (.start hn), fun n hn p hp => ?_⟩
+      exact (hresp n ((hreach n).mpr (.start hn)) p (aux_mem_tsPreds.mpr ⟨hn, hp⟩)).2
+    · cases h
+    · cases h
+  · unfold tsC17 at h
+    split at h
+    · cases h
+    · rename_i c' hc
+      injection h with h
+      subst h
+      obtain ⟨hreal, _⟩ := HvGraphAlg.topoSort_err_is_cycle (aux_ts_bounded nodes preds) hc
+      have hE : ∀ a b, a ∈ tsPreds nodes preds b → a ∈ preds b := fun a b hab => (aux_mem_tsPreds.mp hab).2
+      cases hcc : c' with
+      | nil => exact (hreal.ne hcc).elim
+      | cons x t =>
+        rw [hcc] at hreal
+        refine ⟨x, t, rfl, aux_isPath_path hE _ hreal.path, hE _ _ ?_⟩
+        exact hreal.closes x _ rfl (List.getLast?_eq_some_getLast (List.cons_ne_nil x t))
+    · rename_i hf
+      exact (tsC17_never_out_of_fuel nodes preds hf).elim
+
 /-! ### property theorems -/
 
 /-- **The reported cycle is a real cycle of the dependency graph.** -/
@@ -238,28 +315,24 @@ theorem aux_dep_closed (g : Flat) (wf : g.WF) : ∀ p ∈ g.depPairs, p.1 ∈ g.
   · -- loop ingress: `loopNodes` only lists existing nodes
     unfold Flat.ingressPairs at hp
     simp only [List.mem_flatMap] at hp
-    obtain ⟨e, _, h⟩ := hp
+    obtain ⟨q, _, h⟩ := hp
     split at h
+    · rename_i l _
+      simp only [List.mem_map] at h
+      obtain ⟨i, hi, rfl⟩ := h
+      simp only
+      unfold Flat.loopNodes at hi
+      split at hi
+      · simp only [List.mem_filter] at hi
+        have hs := hi.2
+        unfold Flat.node? at hs
+        rw [List.find?_isSome] at hs
+        obtain ⟨x, hx, hxe⟩ := hs
+        simp only [beq_iff_eq] at hxe
+        unfold Flat.nodeIds
+        exact List.mem_map.mpr ⟨x, hx, hxe⟩
+      · simp at hi
     · simp at h
-    · split at h
-      · rename_i dl _
-        split at h
-        · simp only [List.mem_map] at h
-          obtain ⟨i, hi, rfl⟩ := h
-          simp only
-          unfold Flat.loopNodes at hi
-          split at hi
-          · simp only [List.mem_filter] at hi
-            have hs := hi.2
-            unfold Flat.node? at hs
-            rw [List.find?_isSome] at hs
-            obtain ⟨x, hx, hxe⟩ := hs
-            simp only [beq_iff_eq] at hxe
-            unfold Flat.nodeIds
-            exact List.mem_map.mpr ⟨x, hx, hxe⟩
-          · simp at hi
-        · simp at h
-      · simp at h
 
 /-- **Partitioning returns the cycle error exactly when the dependency graph has a cycle**
     (for graphs that do not trip the conflicted-reference assert, which is itself a self-cycle:
@@ -279,7 +352,7 @@ theorem partition_err_iff_cycle (ts : TopoSortFn) (hts : TopoSpec ts) (g : Flat)
       refine aux_no_cycle_of_rank (Dep g) (fun n => order.idxOf n) ?_ hcyc
       intro a b hab
       have hb : b ∈ g.nodeIds := aux_dep_closed g wf (b, a) hab
-      exact hresp b (hall b hb) a (aux_mem_newPreds.mpr ⟨hb, hab⟩)
+      exact hresp b hb a (aux_mem_newPreds.mpr ⟨hb, hab⟩)
 
 /-- the `assert_ne!` of `find_access_group_ordering` fires only on a self-dependency, i.e. a cycle of
     length one of the dependency graph: the panic is a rejection of a cyclic graph -/
@@ -312,23 +385,67 @@ theorem accepted_is_acyclic (ts : TopoSortFn) (hts : TopoSpec ts) (g : Flat) (wf
 def AcyclicAcceptedStatement (ts : TopoSortFn) : Prop :=
   ∀ g : Flat, g.WF → ¬ HasCycle (Dep g) → ∃ r, partitionWith ts g = .ok r
 
-/-- **An acyclic graph is never rejected with a cycle, nor by the conflicted-reference assert**
-    (partial form of `AcyclicAcceptedStatement`: what is missing is (a) the delayed self-edge, where the
-    real code panics — see `acyclic_accepted_refuted` — and (b) that none of the later defensive
-    `assert!`/`expect` of `try_merge` / `make_subgraphs` fires, which is the `SubgraphMerge` invariant of
-    C17 and is covered here by the correspondence check only). -/
+/-- `SubgraphMerge::new` never trips its `assert_ne!(a, b)` on the enemy pairs `partition_graph` hands it
+    (self-pairs — a delayed self-edge — are skipped since the fix of finding F19) -/
+theorem new_accepts_enemy_pairs (ts : TopoSortFn) (g : Flat) (msg : String) :
+    SM.new ts g.nodeIds (Flat.predsOf g.depPairs) g.enemyPairs ≠ .panic msg := by
+  simp only [SM.new]
+  split
+  · intro h; cases h
+  · have hno : (g.enemyPairs.any fun p => p.1 == p.2) = false := by
+      rw [List.any_eq_false]
+      intro p hp
+      unfold Flat.enemyPairs at hp
+      simp only [List.mem_filter, bne_iff_ne, ne_eq] at hp
+      simpa using hp.2
+    simp only [hno, Bool.false_eq_true, if_false]
+    intro h; cases h
+
+/-- **An acyclic graph is never rejected with a cycle, nor by the conflicted-reference assert, nor by the
+    enemy-pair assert of `SubgraphMerge::new`** (partial form of `AcyclicAcceptedStatement`: what is missing is
+    that none of the later defensive `assert!`/`expect` of `try_merge` / `make_subgraphs` fires, which needs the
+    full `SubgraphMerge` order invariant of C17 for this transcription and is covered here by the
+    correspondence check only). -/
 theorem acyclic_not_rejected_partial (ts : TopoSortFn) (hts : TopoSpec ts) (g : Flat) (wf : g.WF)
     (hac : ¬ HasCycle (Dep g)) :
-    (∀ c, partitionWith ts g ≠ .err c) ∧ g.refsConflict = false := by
+    (∀ c, partitionWith ts g ≠ .err c) ∧ g.refsConflict = false ∧
+      (∃ sm, SM.new ts g.nodeIds (Flat.predsOf g.depPairs) g.enemyPairs = .ok sm) := by
   have hrefs : g.refsConflict = false := by
     cases hq : g.refsConflict with
     | false => rfl
     | true =>
       obtain ⟨a, ha⟩ := conflictedRefs_is_self_cycle g hq
       exact (hac ⟨[a], ha⟩).elim
-  refine ⟨fun c hc => hac ((partition_err_iff_cycle ts hts g wf hrefs).mp ⟨c, hc⟩), hrefs⟩
+  have hne : ∀ c, partitionWith ts g ≠ .err c :=
+    fun c hc => hac ((partition_err_iff_cycle ts hts g wf hrefs).mp ⟨c, hc⟩)
+  refine ⟨hne, hrefs, ?_⟩
+  cases hn : SM.new ts g.nodeIds (Flat.predsOf g.depPairs) g.enemyPairs with
+  | ok sm => exact ⟨sm, rfl⟩
+  | panic msg => exact (new_accepts_enemy_pairs ts g msg hn).elim
+  | cycle c =>
+    exfalso
+    apply hne c
+    unfold partitionWith
+    simp [hrefs, hn]
 
-/-! ### the refuted clause: a delayed self-edge (finding F19) -/
+/-! ### the model as run (`partition` = `partitionWith tsC17`): no hypothesis left -/
+
+/-- **Partitioning returns the cycle error exactly when the dependency graph has a cycle.** -/
+theorem partition_rejects_iff_cycle (g : Flat) (wf : g.WF) (hrefs : g.refsConflict = false) :
+    (∃ c, partition g = .err c) ↔ HasCycle (Dep g) :=
+  partition_err_iff_cycle tsC17 tsC17_meets_TopoSpec g wf hrefs
+
+/-- **The reported cycle is a real cycle of the dependency graph.** -/
+theorem partition_reported_cycle_is_real (g : Flat) (c : List Nat) (h : partition g = .err c) :
+    IsCycle (Dep g) c :=
+  reported_cycle_is_real tsC17 tsC17_meets_TopoSpec g c h
+
+/-- **Every accepted graph is acyclic.** -/
+theorem partition_accepted_is_acyclic (g : Flat) (wf : g.WF) (r : PResult) (h : partition g = .ok r) :
+    ¬ HasCycle (Dep g) :=
+  accepted_is_acyclic tsC17 tsC17_meets_TopoSpec g wf r h
+
+/-! ### the formerly refuted clause: a delayed self-edge (finding F19, fixed) -/
 
 /-- `d = defer_tick(); d -> d;` -/
 def witnessDelayedSelfEdge : Flat :=
@@ -336,13 +453,14 @@ def witnessDelayedSelfEdge : Flat :=
 
 theorem aux_witness_dep : witnessDelayedSelfEdge.depPairs = [] := by decide
 
-/-- **Refuted: "every acyclic graph is accepted".**  The dependency graph of the witness has no edge at all
-    (its only pipe is delayed), yet `partition_graph` does not accept it: `SubgraphMerge::new` asserts that
-    an enemy pair has two different nodes.  (Holds for every `ts` that returns *some* order here.) -/
-theorem acyclic_accepted_refuted :
+/-- **The delayed self-edge is accepted** (before the fix of F19 `SubgraphMerge::new` panicked on the enemy pair
+    `(d, d)`): the dependency graph of the witness has no edge at all, and the partitioner answers one subgraph
+    whose self-loop crosses a handoff marked `Tick`. -/
+theorem delayed_self_edge_accepted :
     witnessDelayedSelfEdge.WF ∧ ¬ HasCycle (Dep witnessDelayedSelfEdge) ∧
-      partition witnessDelayedSelfEdge = .panic "no-merge-pair-same-node" := by
-  refine ⟨⟨by decide, by decide⟩, ?_, by decide⟩
+      ∃ r, partition witnessDelayedSelfEdge = .ok r ∧ r.subgraphs = [[1]] ∧ r.hoffEdges = [1] ∧
+        r.delays = [(true, 1, Delay.tick)] := by
+  refine ⟨⟨by decide, by decide⟩, ?_, _, rfl, by decide, by decide, by decide⟩
   rintro ⟨c, h, t, _, _, hcl⟩
   unfold Dep at hcl
   rw [aux_witness_dep] at hcl
